@@ -8,7 +8,7 @@ HERE = os.path.dirname(os.path.abspath(__file__))
 sys.path.insert(0, HERE)
 import runner
 import profiles     # registers all profiles, defines PROPS
-import diffprof, bytesprof, confprof
+import diffprof, bytesprof, confprof, reloadprof, logsprof, modprof
 
 
 def build():
